@@ -265,10 +265,11 @@ structure Cfg where
 
 /-- the code at the commit the work started from (0308209): regression witnesses only -/
 def Cfg.asIs : Cfg := ⟨true, true, false, false, false⟩
-/-- /repo after aab3e5b + dbf9f09 (997852f and later): cached flags not trusted, early value rejected,
-zero root = empty trie, but the walk still uses the node as given -/
+/-- /repo after aab3e5b + dbf9f09 and before 616d4a4: cached flags not trusted, early value rejected,
+zero root = empty trie, but the walk still uses the node as given (regression witnesses only) -/
 def Cfg.at997852f : Cfg := ⟨false, false, true, false, false⟩
-/-- all repairs; also the independent verifier of the harness -/
+/-- /repo since 616d4a4 (all repairs): THE model of both `VerifyProof`; also the independent verifier
+of the harness -/
 def Cfg.strict : Cfg := ⟨false, false, true, true, true⟩
 
 /-- `trie.VerifyProof` (core/trie/proof.go:144). `curPos` is a `uint8`. -/
